@@ -78,3 +78,16 @@ func readReport(cwd, name string, v interface{}) error {
 	}
 	return json.Unmarshal(b, v)
 }
+
+func init() {
+	// "mc javacheck <file>": syntax errors coca's own grammar reports for a file (debugging aid for generators)
+	engine.ExtraCmds["javacheck"] = func(args []string) {
+		b, err := os.ReadFile(args[0])
+		if err != nil {
+			fmt.Println(err)
+			os.Exit(2)
+		}
+		n, first := javaSyntaxErrors(string(b))
+		fmt.Printf("%d syntax errors; first: %s\n", n, first)
+	}
+}
